@@ -32,7 +32,10 @@ def literals(h, modelled_only=False):
            ('10%', h.Quantity(10.0, '%'), True), ('7kW', h.Quantity(7.0, 'kW'), True), ('"x"', 'x', True), ('"a b"', 'a b', True), ('"q\\"\\n\\u00e9"', 'q"\né', True),
            ('""', '', True), ('`http://x/`', h.Uri('http://x/'), True), ('@r1', h.Ref('r1'), True), ('@r2 "dis two"', h.Ref('r2', 'dis two', True), True),
            ('@p:demo:r:1e85', h.Ref('p:demo:r:1e85'), True), ('true', True, True), ('false', False, True), ('M', h.MARKER, True), ('NA', h.NA, True),
-           ('INF', float('inf'), True), ('-INF', float('-inf'), True)]
+           ('INF', float('inf'), True), ('-INF', float('-inf'), True),
+           # blanks INSIDE a literal are data: runs of blanks, a trailing / leading blank, a no-break space
+           ('"a  b"', 'a  b', True), ('" a b "', ' a b ', True), ('"a\u00a0b"', 'a\u00a0b', True), ('`http://x/a  b`', h.Uri('http://x/a  b'), True),
+           ('@r2 "dis  two"', h.Ref('r2', 'dis  two', True), True), ('"and  or   not"', 'and  or   not', True)]
     if not modelled_only:
         out += [('2020-01-02', datetime.date(2020, 1, 2), False), ('12:30:00', datetime.time(12, 30), False),
                 ('2020-01-02T03:04:05Z UTC', pytz.utc.localize(datetime.datetime(2020, 1, 2, 3, 4, 5)), False), ('Bin(text/plain)', h.Bin('text/plain'), False),
@@ -293,7 +296,8 @@ def run(ctx):
             pos = {id(r): i for i, r in enumerate(rows)}
             got = [pos.get(x, -1) for x in got_ids]
             if got != want:
-                ctx.violation('impl-counterexample', 'filter %r (limit %d) returned rows %r, it denotes rows %r' % (text, limit, got[:12], want[:12]), rep)
+                ctx.violation('impl-counterexample', 'filter %r (limit %d) returned rows %r, it denotes rows %r (wrongly returned: %r, wrongly left out: %r)'
+                              % (text, limit, got[:12], want[:12], [x for x in got if x not in want][:6], [x for x in want if x not in got][:6]), rep)
                 return
             if str(res.version) != str(g.version) or codec.canon(dict(res.metadata)) != codec.canon(dict(g.metadata)) \
                     or [(c, codec.canon(dict(m))) for c, m in res.column.items()] != [(c, codec.canon(dict(m))) for c, m in g.column.items()]:
